@@ -16,6 +16,7 @@ import (
 )
 
 func init() {
+	predicates["ws"] = predWhitespace
 	predicates["quoted"] = predQuoted
 	predicates["raw"] = predRaw
 	predicates["literal"] = predLiteral
@@ -377,4 +378,52 @@ func TestC14Identifiers(t *testing.T) {
 	st.mu.Lock()
 	st.Exhaustive["C14.identifiers"] = fmt.Sprintf("all 1- and 2-character ASCII strings, all 3-character strings over a %d-character alphabet, non-ASCII letters: %d strings", len(alpha3), n)
 	st.mu.Unlock()
+}
+
+
+// predWhitespace: Expr (single spaces between tokens) and Extra["alt"] (same
+// tokens, other whitespace) must compile alike and to the same AST.
+func predWhitespace(c Case) (r Result) {
+	a, b := c.expr(), c.Extra["alt"].(string)
+	da, ea, pa := libDump(a)
+	db, eb, pb := libDump(b)
+	if pa != nil || pb != nil {
+		r.Violation = "Parse panicked"
+		r.Got = fmt.Sprint(pa, pb)
+		return
+	}
+	r.Nontrivial = strings.ContainsAny(b, "\t\n\r") || len(b) < len(a)
+	if (ea != nil) != (eb != nil) {
+		r.Violation = "whitespace between tokens changes whether the expression compiles"
+		r.Expected, r.Got = fmt.Sprintf("%q: %v", a, ea), fmt.Sprintf("%q: %v", b, eb)
+		return
+	}
+	if ea == nil && da != db {
+		r.Violation = "whitespace between tokens changes the meaning of the expression"
+		r.Expected, r.Got = da, db
+	}
+	return
+}
+
+// TestC14Whitespace: every token boundary with every kind of whitespace.
+func TestC14Whitespace(t *testing.T) {
+	rapid.Check(t, func(t *rapid.T) {
+		lex := genSentence(t, 4+rapid.IntRange(0, 12).Draw(t, "budget"))
+		if rapid.IntRange(0, 4).Draw(t, "mut") == 0 {
+			lex = mutate(t, lex)
+		}
+		spaced := ref.RenderSpaced(lex)
+		seps := make([]string, len(lex))
+		for i := range seps {
+			seps[i] = []string{"", " ", "\t", "\n", "\r", "\r\n", " \t ", "\n\n"}[rapid.IntRange(0, 7).Draw(t, "sep")]
+		}
+		alt := ref.Render(lex, func(i int) string { return seps[i] })
+		switch rapid.IntRange(0, 3).Draw(t, "edge") {
+		case 0:
+			alt = "\t" + alt + "\n"
+		case 1:
+			alt = " \r\n" + alt
+		}
+		run(t, Case{Property: "C14", Kind: "ws", Expr: spaced, Extra: map[string]interface{}{"alt": alt}})
+	})
 }
